@@ -72,7 +72,8 @@ def shape_of(spans: Iterable[dict]) -> Any:
 
 
 def gen_store(rng: random.Random, n_traces: int, names: list[str], types: list[str],
-              max_spans: int = 8, hostile: bool = True, span_minutes: int = 30) -> dict:
+              max_spans: int = 8, hostile: bool = True, span_minutes: int = 30,
+              empty_parent: bool = False) -> dict:
     """A store description: traces with kinds complete / dangling-{leaf,middle,root} /
     mixed-names, spread over a time range so that window trimming bites."""
     traces = []
@@ -125,6 +126,11 @@ def gen_store(rng: random.Random, n_traces: int, names: list[str], types: list[s
                                 if any(x["parent_event_id"] is None for x in spans) \
                                 else s["start_timestamp"]
                             s["start_timestamp"] = root_start - rng.choice([0, 1, 1000, 10**6])
+        if empty_parent and rng.random() < 0.15:
+            # the usual OTLP/JSON spelling of "no parent": an empty string
+            for sp in spans:
+                if sp["parent_event_id"] is None:
+                    sp["parent_event_id"] = ""
         traces.append({"job_id": jid, "name": name, "kind": kind, "spans": spans})
     return {"traces": traces, "base": base, "total": total}
 
